@@ -35,7 +35,7 @@ def run_one(mid, edit, threads, props, cases=None):
         os.makedirs(w + "/repo")
         # committed state of /repo (HEAD), so that a temporarily modified working tree cannot leak in
         subprocess.run("git -C /repo archive HEAD | tar -x -C %s/repo" % w, shell=True, check=True)
-        sh(["rsync", "-a", "--exclude", "target", "/verif/monitor/", w + "/monitor/"])
+        sh(["rsync", "-a", "--exclude", "target", os.environ.get("TWMON_SRC", "/verif/monitor") + "/", w + "/monitor/"])
         # apply the change
         if edit[0] == "replace":
             _, f, old, new = edit
@@ -58,7 +58,7 @@ def run_one(mid, edit, threads, props, cases=None):
             res["status"] = "NOCOMPILE"
             return res
         res["suite"] = "survives" if rc == 0 else "killed(%d)" % out.count("FAILED")
-        toml = open(w + "/monitor/Cargo.toml").read().replace('path = "/repo"', 'path = "%s/repo"' % w)
+        toml = open(w + "/monitor/Cargo.toml").read().replace('path = "/repo"', 'path = "%s/repo"' % w).replace('path = "/tmp/dev/repo"', 'path = "%s/repo"' % w)
         open(w + "/monitor/Cargo.toml", "w").write(toml)
         env2 = dict(env, RUSTFLAGS="--cfg fuzzing")
         rc, out = sh(["cargo", "build", "--offline", "--profile", "checked", "--features", "all", "--target-dir", w + "/mt"], cwd=w + "/monitor", env=env2)
